@@ -11,12 +11,15 @@ LEVEL = "exploration"
 RULE = ("Hypothesis-generated programs for the 8 buffered classes ({Buffered,MemoryBuffered} x {Dict,"
         "List,AttrDict,AttrList}): one object (in half of the cases a second object on a DIFFERENT "
         "file), steps = enter obj.buffered / enter Class.buffer_backend() / exit innermost (a stack, "
-        "so any well-nested order of the two kinds), every mutator and read at roots and retained "
+        "so any well-nested order of the two kinds), outside rewrites of the file between sessions, every mutator and read at roots and retained "
         "nested handles, incl. clear/reset/update. Capacity stays at the class default. Oracle: (a) "
         "every outcome equals the unbuffered plain model; (b) while the object is buffered the file's "
         "(bytes, inode, size, mtime_ns) are what they were when it became buffered; (c) right after "
         "the exit that makes it unbuffered the independently read file equals the model; (d) buffer "
-        "size 0 at the end; no exit raises. Non-trivial = >=2 nested context levels, or one of "
+        "size 0 at the end; no exit raises. A second, model-free part runs the same sequence - including "
+        "operations that are REJECTED HALF-WAY (update/extend/+=/reset/slice with a forbidden item among "
+        "valid ones) - on an unbuffered object and on a buffered one under every context nesting: "
+        "outcomes, reads and the final file must be identical. Non-trivial = >=2 nested context levels, or one of "
         "clear/reset/update/nested-child mutator executed while buffered, followed by a read and an "
         "exit; distinct by (class, context-shape, buffered op kinds).")
 ASSUMPTIONS = [
@@ -28,7 +31,99 @@ ASSUMPTIONS = [
 
 def shards(tier):
     reps = 2 if tier == "quick" else 12
-    return [{"cls": c.name, "rep": r} for c in BUFFERED for r in range(reps)]
+    return [{"cls": c.name, "rep": r} for c in BUFFERED for r in range(reps)] + \
+           [{"cls": c.name, "mode": "diff"} for c in BUFFERED]
+
+
+# ---- differential part: buffered == unbuffered also for operations that fail half-way
+
+def _apply_seq(obj, kind, seq):
+    out = []
+    for (m, a) in seq:
+        o = ops.real_apply(obj, kind, m, a, {})
+        out.append(o.brief()[:2])
+    return out
+
+
+def run_diff_case(case):
+    """The same operation sequence on an unbuffered object and on a buffered one (given context
+    nesting): outcomes, reads and the final file must be identical. No model is involved, so
+    operations whose effect on built-ins is not defined (rejected half-way) can be included."""
+    import copy
+    import shutil
+    from ..classes import new_resource, reset_class_state
+    from ..plain import dec
+    from ..world import Mismatch
+    ci = CLASSES[case["class"]]
+    seq = [(m, dec(a)) for (m, a) in case["ops"]]
+    init = dec(case["init"])
+    d = wm.case_dir()
+    reset_class_state()
+    try:
+        ru = new_resource(ci, d, "u.json")
+        rb = new_resource(ci, d, "b.json")
+        for r in (ru, rb):
+            r.write(copy.deepcopy(init))
+        U, B = ru.make(ci), rb.make(ci)
+        ou = _apply_seq(U, ci.kind, seq)
+        ctxs = []
+        for k in case["ctx"]:
+            c = B.buffered if k == "obj" else type(B).buffer_backend()
+            c.__enter__()
+            ctxs.append(c)
+        ob = _apply_seq(B, ci.kind, seq)
+        for c in reversed(ctxs):
+            c.__exit__(None, None, None)
+        if ou != ob:
+            first = next(i for i, (x, y) in enumerate(zip(ou, ob)) if x != y)
+            raise Mismatch("buffered_outcome_differs_from_unbuffered", op=case["ops"][first],
+                           unbuffered=ou[first], buffered=ob[first], index=first)
+        fu, fb = ru.read(), rb.read()
+        if fu != fb:
+            raise Mismatch("buffered_final_file_differs_from_unbuffered", unbuffered=fu, buffered=fb)
+        if U() != B():
+            raise Mismatch("buffered_object_differs_from_unbuffered", unbuffered=U(), buffered=B())
+    finally:
+        reset_class_state()
+        shutil.rmtree(d, ignore_errors=True)
+
+
+def _draw_diff_case(draw, ci):
+    from ..plain import enc
+    dom = gen.Dom(ci)
+    inv = {"$inv": "intkey"}
+    v = lambda: draw(dom.values(3))  # noqa: E731
+    seq = []
+    kind = ci.kind
+    init = draw(dom.doc(kind))
+    for _ in range(draw(st.integers(0, 2))):
+        seq.append(("setitem", ["k%d" % draw(st.integers(0, 2)), v()]) if kind == "dict" else ("append", [v()]))
+    if kind == "dict":
+        order = draw(st.permutations(["good1", "bad", "good2"]))
+        payload = {k: (inv if k == "bad" else v()) for k in order}
+        form = draw(st.sampled_from(["map", "pairs", "over_existing"]))
+        if form == "map":
+            seq.append(("update", [payload]))
+        elif form == "pairs":
+            seq.append(("update", [[[k, x] for k, x in payload.items()]]))
+        else:
+            keys = list(init.keys())[:2]
+            p2 = {**{k: v() for k in keys}, **payload}
+            seq.append(("update", [p2]))
+    else:
+        m = draw(st.sampled_from(["extend", "iadd", "reset", "setslice"]))
+        items = [v(), inv, v()]
+        if m == "setslice":
+            from ..plain import Slice
+            seq.append(("setitem", [Slice(0, 1, None), items]))
+        else:
+            seq.append((m, [items]))
+    seq.append(("call", []))
+    seq.append(("setitem", ["after", 1]) if kind == "dict" else ("append", ["after"]))
+    seq.append(("call", []))
+    return {"property": ID, "engine": "c05diff", "class": ci.name, "init": enc(init),
+            "ctx": draw(st.sampled_from([["obj"], ["cls"], ["cls", "obj"], ["obj", "cls"], ["obj", "obj"]])),
+            "ops": [[m, enc(a)] for (m, a) in seq]}
 
 
 def _gen_step(ci, dom, two):
@@ -39,6 +134,13 @@ def _gen_step(ci, dom, two):
         if two and not any(w.handles[i].res == 1 for i in roots) and draw(st.integers(0, 4)) == 0:
             return {"t": "new", "r": 1, "id": w.next_id()}
         c = draw(st.integers(0, 19))
+        if c == 18 and not w.stack and ci.backend == "json" and draw(st.booleans()):
+            # between buffered sessions an outside writer replaces the file (also by an EMPTY
+            # container): the next session must start from that content
+            r = draw(st.sampled_from(sorted({w.handles[i].res for i in roots})))
+            doc = draw(st.one_of(st.just({} if ci.kind == "dict" else []), dom.doc(ci.kind)))
+            from ..plain import enc as _enc
+            return {"t": "rewrite", "r": r, "doc": _enc(doc)}
         if c == 19 and w.stack and draw(st.booleans()):
             # the user drops an object inside a class-wide context (its writes must still be flushed)
             cand = [i for i in roots if w.obj_depth.get(i, 0) == 0
@@ -107,6 +209,23 @@ def run_shard(spec, seed, tier, active):
     ci = CLASSES[spec["cls"]]
     dom = gen.Dom(ci)
     acc = Acc()
+    if spec.get("mode") == "diff":
+        from ..runner import CaseFailure
+        from ..world import Mismatch
+
+        def one_d(data):
+            case = _draw_diff_case(data.draw, ci)
+            try:
+                run_diff_case(case)
+            except Mismatch as mm:
+                raise CaseFailure(case, mm.describe())
+            acc.case([h64(case["class"], case["ctx"], [o[0] for o in case["ops"]], case["ops"][-4])],
+                     case if len(acc.samples) < 2 else None, {"diff.cases": 1})
+
+        fail = hyp_search(one_d, 150 if tier == "quick" else 1500, seed)
+        if fail is not None:
+            acc.failures.append({"case": fail.case, "desc": fail.desc})
+        return acc.result()
     n = 100 if tier == "quick" else 500
     max_steps = 35 if tier == "quick" else 50
 
@@ -131,4 +250,11 @@ def run_shard(spec, seed, tier, active):
 
 
 def replay(case):
+    if case.get("engine") == "c05diff":
+        from ..world import Mismatch
+        try:
+            run_diff_case(case)
+        except Mismatch as mm:
+            return mm.describe()
+        return None
     return wm.replay_world(case)
